@@ -16,6 +16,8 @@
   correspondence check covers it on the real objects.
 -/
 import AHP.Lemmas.Pickle
+import AHP.Lemmas.PickleStr
+import AHP.Lemmas.PickleIdx
 namespace AHP.C17
 open AHP AHP.Pk
 
@@ -211,6 +213,26 @@ theorem index_reference_carried (r : DN) (h : WFT r) (own : Option Nat) (n : Nat
     have : (DN.oids r).idxOf x < (DN.oids r).length := List.idxOf_lt_length_of_mem hx
     simp [List.getElem?_range', this]
 
+/-- **Working indexes (IdxInv)**: if the index of the original parser is the index of its document — as after any
+    parse or `reindex()` — then the index of the unpickled parser is the index of *its* document: every map, every
+    key, every list in the same order, every entry an element of the copy. -/
+theorem indexed_parser_unpickle (p : Parser) (r : DN) (hr : p.root = some r) (h : WFT r) (hn : (DN.oids r).Nodup)
+    (ids names classes tags : Bool) (attrNames : List Str)
+    (hix : p.index = some (indexDoc ids names classes tags attrNames r)) (n : Nat) :
+    ∃ p' r', p.roundTrip n = some (p', n + 1 + DN.size r) ∧ p'.root = some r' ∧
+      p'.index = some (indexDoc ids names classes tags attrNames r') := by
+  have e := load_spec (fun o => if o = some p.oid then some n else o) r h (n + 1)
+  refine ⟨{ oid := n, root := some (relabel none ((fun o => if o = some p.oid then some n else o) (DN.ownerOf r)) r (n + 1)).1,
+            doctype := p.doctype, hasReset := true,
+            index := p.index.map (Index.remap ((DN.oids r).zip
+              (DN.oids (relabel none ((fun o => if o = some p.oid then some n else o) (DN.ownerOf r)) r (n + 1)).1))) },
+          (relabel none ((fun o => if o = some p.oid then some n else o) (DN.ownerOf r)) r (n + 1)).1, ?_, rfl, ?_⟩
+  · unfold Parser.roundTrip
+    simp only [hr, e]
+    rw [relabel_snd]
+  · simp only [hix, Option.map_some]
+    rw [remap_indexDoc ids names classes tags attrNames r hn]
+
 /-! ### C17c — cloneNode / copy.copy / copy.deepcopy -/
 
 /-- The clone is built by the constructor from the original's name, attribute list and self-closing flag:
@@ -252,6 +274,27 @@ theorem clone_tag_equal (o u : Nat) (nm : Str) (a : Attrs) (sc : Bool) (blocks :
     canonical last position — always, up to the order of attributes (`clone_tag_equal`). -/
 theorem clone_same_start_tag (nm : Str) (a : Attrs) (sc : Bool) (ha : Attrs.WF a) (hl : Attrs.ClassLast a) :
     Attrs.startTag nm (Attrs.fresh a) sc = Attrs.startTag nm a sc := Attrs.startTag_fresh nm a sc ha hl
+
+/-! ### the two string round trips, from a syntactic description of the stored data -/
+
+/-- class tokens that are non-empty and free of white space survive `' '.join` → `stripWordsOnly` → `split(' ')` -/
+theorem class_round_trip (cls : List Str) (h : ∀ t ∈ cls, Tok t) : classTokens (className cls) = cls :=
+  classTokens_className cls h
+
+/-- style maps with unique names whose properties are `PropOK` (lower-case non-empty name without `:`/`;` and
+    without white space at its ends; non-empty value without `;` and without white space at its ends) survive
+    `_asStr` → `styleToDict` -/
+theorem style_round_trip (sty : List (Str × Str)) (h : ∀ q ∈ sty, PropOK q) (hn : (dkeys sty).Nodup) :
+    styleToDict (styleStr sty) = sty :=
+  styleToDict_styleStr sty h hn
+
+/-- hence `Attrs.WF` follows from purely syntactic conditions on the store -/
+theorem wf_of_syntactic (a : Attrs) (hn : (dkeys a.dict).Nodup)
+    (hnames : ∀ p ∈ a.dict, validAttrName p.1 = true ∧ lower p.1 = p.1)
+    (hstyle : ∀ p ∈ a.dict, (p.1 = sStyle → p.2 = DVal.style) ∧ (p.1 ≠ sStyle → p.2 ≠ DVal.style))
+    (hbool : ∀ p ∈ a.dict, boolStrAttrs.contains p.1 = true → p.1 ≠ sClass → ∃ s, p.2 = DVal.str s ∧ convBoolStr (some s) = s)
+    (hcls : ∀ t ∈ a.cls, Tok t) (hsty : ∀ q ∈ a.sty, PropOK q) (hsn : (dkeys a.sty).Nodup) : Attrs.WF a :=
+  ⟨hn, hnames, hstyle, hbool, class_round_trip a.cls hcls, style_round_trip a.sty hsty hsn⟩
 
 /-! ### non-vacuity and the boundary of the domain -/
 
